@@ -3,6 +3,7 @@ package main
 import (
 	"archive/zip"
 	"bytes"
+	"compress/flate"
 	"compress/gzip"
 	"crypto/sha256"
 	"encoding/hex"
@@ -100,6 +101,7 @@ type world struct {
 	tempPrefix string
 	freeTrees  []string // subtrees that are temporary locations as a whole
 	expectErr  bool     // the operation must fail (failing reader, corrupt archive)
+	errOK      bool     // the operation may refuse (error + old state) without that being a fault of the run
 
 	// op-time handles (child only)
 	fst      storage.Interface
@@ -163,8 +165,8 @@ func zipTree(sp caseSpec) (order []string, tree map[string][]byte) {
 		if i == n-1 {
 			size = sp.NewSize
 		}
-		if i == 1 {
-			size = 0
+		if i == 1 && i != n-1 {
+			size = 0 // an empty member (never the last one: that is the one the broken-archive variants damage)
 		}
 		var p string
 		switch i % 3 {
@@ -205,12 +207,35 @@ func zipBytes(sp caseSpec) []byte {
 			_, _ = w.Write(tree[p])
 			continue
 		}
+		if sp.Variant == "truncmember" && i == len(order)-1 {
+			// structurally valid archive (headers, central directory, CRC of the full content) whose
+			// last member's deflate stream is cut short: extraction hits an unexpected EOF
+			var cb bytes.Buffer
+			fw, _ := flate.NewWriter(&cb, flate.BestSpeed)
+			_, _ = fw.Write(tree[p])
+			_ = fw.Close()
+			cut := cb.Bytes()[:cb.Len()/2]
+			h.Method = zip.Deflate
+			h.CRC32 = crc32.ChecksumIEEE(tree[p])
+			h.CompressedSize64 = uint64(len(cut))
+			h.UncompressedSize64 = uint64(len(tree[p]))
+			w, _ := zw.CreateRaw(h)
+			_, _ = w.Write(cut)
+			continue
+		}
 		w, _ := zw.CreateHeader(h)
 		_, _ = w.Write(tree[p])
 	}
 	_ = zw.Close()
 	b := buf.Bytes()
 	return b
+}
+
+// gzipMulti is a multi-member gzip file (RFC 1952: the concatenation of complete gzip
+// members); its content is the concatenation of the members' contents.
+func gzipMulti(b []byte) []byte {
+	n := len(b)
+	return append(append(gzipBytes(b[:n/3]), gzipBytes(b[n/3:n*2/3])...), gzipBytes(b[n*2/3:])...)
 }
 
 // buildWorld derives paths and expectations; it touches nothing on disk.
@@ -298,7 +323,13 @@ func buildWorld(sp caseSpec, dir string) *world {
 		w.dest = strings.TrimSuffix(w.archive, ".zip")
 		_, w.tree = zipTree(sp)
 		w.freeTrees = []string{filepath.Join(store, "tmp", filepath.Base(w.dest))}
-		w.expectErr = sp.Variant == "corrupt"
+		w.expectErr = sp.Variant == "corrupt" || sp.Variant == "truncmember"
+		if sp.Old == "file" {
+			// a regular file sits where the directory should go: the previous state that must survive
+			// unless the complete directory replaces it (the unchanged code refuses with an error)
+			w.old = oldC
+			w.errOK = true
+		}
 	case tDownload:
 		w.ident = "all/dl/" + sp.Name + ".bin"
 		store := filepath.Join(w.sb, "store")
@@ -445,9 +476,15 @@ func (w *world) setupStore() {
 		if sp.Variant == "corrupt" {
 			b = b[:len(b)*2/3]
 		}
+		if sp.Variant == "multi" {
+			b = gzipMulti(w.new)
+		}
 		writeRaw(w.archive, b, 0o644)
 	case tZip:
 		writeRaw(w.archive, zipBytes(sp), 0o644)
+		if sp.Old == "file" && w.old != nil {
+			writeRaw(w.dest, w.old, w.oldMode())
+		}
 	case tDownload:
 		if w.old != nil {
 			writeRaw(w.dest, w.old, w.oldMode())
